@@ -344,6 +344,10 @@ def run(ctx):
     ctx.floor("R18.2", "accumulator take operation", len(takes), 1)
     for b in takes:
         tk = [c for c in b.calls() if c.name == "take" and "Option" in c.def_]
+        # (a representation may delegate to a private take of its own: `Shared(s) => s.take()`)
+        tk += [c for c in b.calls() if c not in tk and any(hb.crate == MQ and hb.kind != "Closure" and hb.def_ != b.def_ and
+                                                           hb.must_pass([x.bb for x in hb.calls() if x.name == "take" and "Option" in x.def_] or [-1])
+                                                           and any(x.name == "take" and "Option" in x.def_ for x in hb.calls()) for hb in local_callee_bodies(F, c))]
         ctx.check(len(tk) == 2, "R18.2", fnkey(b) + "#both-representations-take", loc(b), "MaybeGuardedDuration::take does not take() in both representations (found %d)" % len(tk))
     shared_tys = {f["ty"] for d_ in acc_adts(F) for v in F.adts[d_]["variants"] for f in v["fields"] if f["ty"].startswith(MQ + "::")}
     sc = [b for b in F.all_bodies(MQ) if mgd(b) and (b.d.get("output") or "") in shared_tys and (b.d.get("inputs") or [""])[0].startswith("&mut ")]
@@ -417,6 +421,35 @@ def run(ctx):
     for b in g:
         is_tl = lambda c: c.is_in("std::thread", "LocalKey::with", "LocalKey::try_with")
         is_rt = lambda c: c.name == "try_get_runtime_time_source"
+        # the same precedence written as a chain `explicit.or_else(thread_local).or_else(runtime).unwrap_or(System)`: Option::or_else only
+        # consults its argument when everything before it came up empty, so the order of the chain is the precedence
+        chain = []
+        prc = Prov(b)
+        ors = [c for c in b.calls() if c.name == "or_else" and "option::Option" in c.def_]
+        if ors:
+            def kind_of_arg(c):
+                ks = set()
+                for fb in closure_args(F, c) + fn_item_args(F, c) + fn_operand_bodies(F, b, c.args[1] if len(c.args) > 1 else c.args[0]):
+                    if any(is_tl(x) for x in fb.calls()) or reaches_call(F, fb, is_tl, depth=1):
+                        ks.add("tl")
+                    if fb.name == "try_get_runtime_time_source" or any(is_rt(x) for x in fb.calls()):
+                        ks.add("rt")
+                fa = [e for e in c.callee.get("fn_args", []) if "try_get_runtime_time_source" in str(e)]
+                if fa:
+                    ks.add("rt")
+                return ks
+            # order the or_else calls by data flow: each one's receiver is the previous one's result (or the parameter)
+            first = [c for c in ors if any(x[0] == "arg" and x[1] == 1 for x in prc.operand(c.args[0])) and not any(x[0] == "call" and x[1] in [o.bb for o in ors] for x in prc.operand(c.args[0]))]
+            cur = first[0] if len(first) == 1 else None
+            while cur is not None:
+                chain.append(kind_of_arg(cur))
+                nxt = [c for c in ors if c is not cur and any(x[0] in ("call", "via") and x[1] == cur.bb for x in prc.operand(c.args[0])) and c not in [None]]
+                nxt = [c for c in nxt if len(chain) < 4]
+                cur = nxt[0] if len(nxt) == 1 else None
+        if chain and chain == [{"tl"}, {"rt"}]:
+            ctx.ok("R18.3", fnkey(b) + "#thread-local>runtime", loc(b), "or_else chain: explicit, thread-local, runtime")
+            ctx.ok("R18.3", fnkey(b) + "#explicit-first", loc(b), "the chain starts from the explicit argument")
+            continue
         precedence(ctx, "R18.3", b, is_tl, is_rt, "thread-local>runtime")
         # explicit first: the parameter's Some arm returns before any lookup
         dom = b.dominators()
